@@ -10,6 +10,7 @@ import (
 	"fmt"
 	"sort"
 	"strings"
+	"sync"
 
 	"github.com/danos/mgmterror"
 	"github.com/danos/utils/pathutil"
@@ -481,4 +482,97 @@ func Observe(cs []Chain, lexemes [][]Cps, keepYang bool) []Obs {
 		}
 	}
 	return out
+}
+
+// ObserveConcurrent validates the lexemes from many goroutines at once on a
+// freshly compiled type (first use), for several compilations.  It reports two
+// passes in the order of the lexemes: the conjunction and the disjunction of
+// all verdicts seen for a lexeme (they are equal iff every goroutine of every
+// round saw the same verdict); the error details are those of the first
+// rejection seen.
+func ObserveConcurrent(c Chain, lexemes []Cps, rounds, procs int, keepYang bool) Obs {
+	o := Obs{Def: Cps{}, Passes: [][]ProbeObs{}}
+	mods := Render([]Chain{c})
+	if keepYang {
+		o.Yang = mods
+	}
+	n := len(lexemes)
+	leafPath := []string{ContainerOf(c.Mod), "x1"}
+	vpaths := make([][]string, n)
+	for k, lx := range lexemes {
+		vpaths[k] = append(append([]string{}, leafPath...), lx.String())
+	}
+	all, some := make([]bool, n), make([]bool, n)
+	first := make([]kept, n)
+	for k := range all {
+		all[k] = true
+	}
+	for r := 0; r < rounds; r++ {
+		ms, err, pan := compileMods(mods)
+		if pan != "" || err != nil {
+			o.Compiled, o.Panic = false, ascii(pan)
+			o.Cerr = "panic"
+			if err != nil {
+				o.Cerr = ascii(err.Error())
+			}
+			return o
+		}
+		cont := ms.Child(leafPath[0])
+		if cont == nil || cont.Child("x1") == nil {
+			o.Cerr = "leaf not found in the compiled schema"
+			return o
+		}
+		leaf := cont.Child("x1").(schema.Leaf)
+		o.Compiled = true
+		d, has := leaf.Default()
+		o.HasDef, o.Def = has, ToCps(d)
+		typ := leaf.Type()
+		res := make([][]kept, procs)
+		start := make(chan struct{})
+		var wg sync.WaitGroup
+		for g := 0; g < procs; g++ {
+			wg.Add(1)
+			go func(g int) {
+				defer wg.Done()
+				mine := make([]kept, n)
+				<-start
+				for j := 0; j < n; j++ {
+					k := (j*7 + g*(n/procs+1)) % n // every goroutine walks the lexemes in an order of its own
+					if n%7 == 0 {
+						k = (j + g*(n/procs+1)) % n
+					}
+					mine[k].err, mine[k].pan = validate(typ, vpaths[k], vpaths[k][2])
+				}
+				res[g] = mine
+			}(g)
+		}
+		close(start)
+		wg.Wait()
+		for g := 0; g < procs; g++ {
+			for k := 0; k < n; k++ {
+				ok := res[g][k].err == nil && res[g][k].pan == ""
+				all[k] = all[k] && ok
+				some[k] = some[k] || ok
+				if !ok && first[k].err == nil && first[k].pan == "" {
+					first[k] = res[g][k]
+				}
+			}
+		}
+	}
+	pa, pb := make([]ProbeObs, n), make([]ProbeObs, n)
+	for k := 0; k < n; k++ {
+		rej := inspect(first[k], vpaths[k], leafPath)
+		if all[k] {
+			pa[k] = ProbeObs{Ok: true, Pc: "none"}
+		} else {
+			pa[k] = rej
+		}
+		if some[k] {
+			pb[k] = ProbeObs{Ok: true, Pc: "none"}
+		} else {
+			pb[k] = rej
+		}
+	}
+	o.Passes = [][]ProbeObs{pa, pb}
+	return o
 }
